@@ -45,7 +45,7 @@ ATOMS = [
     None, True, False, 0, 1, -1, 2, 2 ** 31 - 1, 2 ** 31, -(2 ** 31), -(2 ** 31) - 1, 2 ** 32, 2 ** 63, 2 ** 64,
     -(2 ** 64), 10 ** 100,
     0.0, -0.0, 1.0, -1.0, float("nan"), float("inf"), float("-inf"), 5e-324, 1e308,
-    "", " ", "|", "0", "1", "a", "b", "a|b", "None", "__none__", "__DDS_NONE__", "True", "0.0", _HEX_A,
+    "", " ", "|", "0", "1", "a", "b", "a|b", "None", "__none__", "__DDS_NONE__", "True", "False", "0.0", "1.0", "-1", "nan", "[]", _HEX_A,
     pathlib.PurePosixPath("a"), pathlib.PurePosixPath("/"), pathlib.PurePosixPath("/a/b"),
     datetime.date(2020, 1, 2), datetime.datetime(2020, 1, 2, 3, 4, 5), datetime.time(1, 2, 3),
     datetime.timedelta(1, 2, 3), datetime.timezone.utc,
@@ -477,6 +477,42 @@ def check_length_guard(ev):
                         )
     finally:
         dds.set_option("hash.max_sequence_size", old)
+    check_guard_history(ev)
+
+
+def check_guard_history(ev):
+    """The outcome of hashing depends on the value and on the option in force, not on the history of the process: every sequence
+    of three option changes (set to 0 / 1 / 6, reset to the default), with sequences of lengths around the bounds hashed after
+    each change, is compared with the bound of a plain model and with the signatures obtained before any option was touched."""
+    import dds
+    import itertools
+
+    dds_hash, DDSException, codes = _dds()
+    dds.reset_option("hash.max_sequence_size")
+    default = dds.get_option("hash.max_sequence_size")
+    lens = (0, 1, 2, 6, 7, 40)
+    base = {ln: hash_value(dds_hash, DDSException, codes, list(range(ln))) for ln in lens}
+    try:
+        for seq in itertools.product([0, 1, 6, "reset"], repeat=3):
+            dds.reset_option("hash.max_sequence_size")
+            for i, o in enumerate(seq):
+                if o == "reset":
+                    dds.reset_option("hash.max_sequence_size")
+                    bound = default
+                else:
+                    dds.set_option("hash.max_sequence_size", o)
+                    bound = o
+                case = {"kind": "guard", "history": list(seq[: i + 1])}
+                if dds.get_option("hash.max_sequence_size") != bound:
+                    raise Violation(f"after the option changes {list(seq[:i + 1])} get_option('hash.max_sequence_size') = {dds.get_option('hash.max_sequence_size')!r}, expected {bound!r}", case)
+                for ln in lens:
+                    res = hash_value(dds_hash, DDSException, codes, list(range(ln)))
+                    want = base[ln] if ln <= bound else ("err", "SEQUENCE_TOO_LONG")
+                    if res != want:
+                        raise Violation(f"after the option changes {list(seq[:i + 1])} (bound in force {bound}) a list of length {ln} hashes to {res}, expected {want}: the outcome depends on the history of the process", case)
+                ev.case(case, True, features=["guard", "guard-history"])
+    finally:
+        dds.reset_option("hash.max_sequence_size")
 
 
 def run(tier, seed, scale=1.0):
